@@ -17,13 +17,13 @@ from .. import prog as PG
 PID = 'C03'
 RULE = ('programs drawn by the concolic generator (vlib/prog.py) at K=4 probe points: single-operation buckets (one per '
         'differentiable operation family, the operation first, followed by up to 2 element-wise/arithmetic instructions) and '
-        'composition buckets (2..10 instructions over all families); per case D in 1..4, P in 1..3 with a different base '
+        'composition buckets (2..10 instructions over all families); per case D in 1..5, P in 1..3 with a different base '
         'point per direction, dense higher coefficients, dense adjoint seed and direction polynomials; graph recorded with '
         'ndarray or UTPM inputs at a further point.  Non-trivial = D >= 2 and the program contains a non-linear operation '
         'and the seed has >= 2 non-zero orders; distinct by descriptor hash')
 ASSUMPTIONS = [
     'F\'(x(t))v(t) comes from algopy forward mode at degree 2D (validated independently by C01/C02/C07/C08/C12)',
-    'tolerance 1e-8 relative to max(1, sum of absolute values of the terms of both pairings)',
+    'tolerance 1e-8 relative to max(1, sum of absolute values of the terms of both pairings, 1e-5 * largest intermediate Taylor coefficient of the forward reference) - the last term is the rounding floor eps*mag of the reference itself',
     'inputs satisfy the operations\' preconditions with margin at every probe point (by construction)',
     'cholesky/eigh are applied to symmetric-by-construction expressions; eig is outside the program domain (D <= 2 assert)',
 ]
@@ -76,12 +76,21 @@ def forward_reference(case, D, P):
     V = case['v']
     Z = [UTPM(d) for d in _inputs(case, D, P, pad=D, extra=V)]
     Z0 = [UTPM(d) for d in _inputs(case, D, P, pad=D, extra=[np.zeros_like(v) for v in V])]
-    yz = PG.run(case['prog'], Z)[case['out']]
-    y0 = PG.run(case['prog'], Z0)[case['out']]
+    rz = PG.run(case['prog'], Z)
+    r0 = PG.run(case['prog'], Z0)
+    yz, y0 = rz[case['out']], r0[case['out']]
+    # largest intermediate coefficient: the rounding error of this reference is about eps * mag, whatever the size of the result
+    mag = 1.0
+    for r in rz + r0:
+        if isinstance(r, UTPM) and r.data.size:
+            m = float(np.max(np.abs(r.data)))
+            if np.isfinite(m):
+                mag = max(mag, m)
+    case['_mag'] = mag
     return yz.data[D:] - y0.data[D:], y0.data[:D]
 
 
-def pairing(xbars, V, ybar, W, D, P):
+def pairing(xbars, V, ybar, W, D, P, mag=1.0):
     """returns (max relative discrepancy, details)"""
     worst = (0.0, None)
     for p in range(P):
@@ -99,7 +108,7 @@ def pairing(xbars, V, ybar, W, D, P):
                 sc += np.sum(np.abs(t))
             if not (np.isfinite(lhs) and np.isfinite(rhs)):
                 return float('inf'), (p, d, float(lhs), float(rhs))
-            e = abs(lhs - rhs) / max(sc, 1.0)
+            e = abs(lhs - rhs) / max(sc, 1.0, 1e-5 * mag)
             if e > worst[0]:
                 worst = (e, (p, d, float(lhs), float(rhs)))
     return worst
@@ -145,7 +154,7 @@ def prop_pairing(case, stats):
             xbars.append(np.array(xb.data.real))
         else:
             xbars.append(np.array(xb.data))
-    e, det = pairing(xbars, case['v'], ybar, W, D, P)
+    e, det = pairing(xbars, case['v'], ybar, W, D, P, mag=case.pop('_mag', 1.0))
     stats.err(e if np.isfinite(e) else 1.0)
     if e > TOL:
         p, d, lhs, rhs = det
@@ -199,8 +208,8 @@ def pairing_cases(draw, tier, first=None, families=None, max_len=8, min_len=1, a
     allow_bcast = not KF.is_open(OPEN_SET_BCAST)
     pr = draw(PG.programs(n_inputs=(1, 2), max_len=max_len, min_len=min_len, families=families, out='any', K=4,
                           allow_set_broadcast=allow_bcast, first=first, allow_ones=allow_ones))
-    Dmax = 3 if tier == 'quick' else 4
-    D = draw(st.sampled_from([3, 2, 3, 2] + ([4, 4] if Dmax >= 4 else []) + [1]))
+    Dmax = 4 if tier == 'quick' else 5
+    D = draw(st.sampled_from([3, 2, 4, 3, 2] + ([5, 5] if Dmax >= 5 else []) + [1]))
     P = draw(st.sampled_from([2, 1, 2, 3]))
     case = dict(pr)
     case['D'], case['P'] = D, P
@@ -233,7 +242,7 @@ def buckets(tier):
     for fam in SINGLE:
         bl.append(Bucket('op:' + fam,
                          (lambda fam=fam: pairing_cases(tier, first=fam, families=CHEAP_TAIL, max_len=3, min_len=1)),
-                         prop_pairing, {'quick': 25, 'thorough': 400}, nontrivial=_nontrivial, classes=_classes,
+                         prop_pairing, {'quick': 40, 'thorough': 400}, nontrivial=_nontrivial, classes=_classes,
                          weight=3.0 if fam in ('special', 'unp', 'eigh', 'svd', 'fft') else 1.0))
     # (minimum/maximum of tracer nodes fall through to numpy.minimum on objects, which *selects one operand at recording time*:
     #  data-dependent control flow, outside the property's domain of straight-line programs)
